@@ -15,6 +15,13 @@ impl ScopedCounter {
         }
     }
 
+    /// A counter that continues from `count`.
+    pub fn starting_at(count: usize) -> ScopedCounter {
+        ScopedCounter {
+            count: RefCell::new(count),
+        }
+    }
+
     pub fn count(&self) -> usize {
         *self.count.borrow()
     }
